@@ -52,7 +52,7 @@ impl Monitor for SpecMon {
 }
 
 /// First disagreement between the implementation and a reference on the product, if any.
-fn first_disagreement(
+pub(crate) fn first_disagreement(
     c: &mut Counters,
     impl_dfa: &Dfa,
     r: &Reference,
@@ -86,6 +86,28 @@ fn first_disagreement(
         }
         if a != b && found.is_none() {
             found = Some((strings[i].clone(), a, b));
+        }
+    }
+    // every other explored transition, replayed through the real matcher: the string that takes
+    // it must be answered as the documented semantics says (the reference automaton's answer in
+    // the target state), whatever the implementation automaton says
+    if let Some(real) = validate {
+        for (from, ch, to) in ex.cross.iter() {
+            let (t, m) = &ex.states[*to as usize];
+            if r.u3 && m.0 == 0 {
+                continue;
+            }
+            let mut s = strings[*from as usize].clone();
+            s.push(*ch);
+            bump(c, "traces_validated_against_impl", 1);
+            let rr = real(&s);
+            if rr != automata::acc(&dfas, t, 0) {
+                bump(c, "binding_mismatches", 1);
+                let b = automata::acc(&dfas, t, 1);
+                if rr != b && found.is_none() {
+                    found = Some((s, rr, b));
+                }
+            }
         }
     }
     Ok(found)
@@ -139,6 +161,9 @@ pub fn c01(tier: Tier) -> i32 {
                 return;
             },
         };
+        if std::env::var("WAXMC_TRACE").map_or(false, |t| t == e.text) {
+            eprintln!("TRACE `{}` pass={} impl={} ref={} dis={:?}", e.text, e.pass, g.verif_program_text(), r.regex, dis);
+        }
         let Some((path, got, want)) = dis else {
             bump(c, "conforming_expressions", 1);
             return;
@@ -166,7 +191,8 @@ pub fn c01(tier: Tier) -> i32 {
                 r2.u2 = r.u2;
                 r2.u3 = r.u3;
                 let mut scratch = Counters::new();
-                if let Ok(None) = first_disagreement(&mut scratch, &impl_dfa, &r2, &[], None) {
+                // (judged by the real matcher: where the automaton and `is_match` differ, the real answer decides here too)
+                if let Ok(None) = first_disagreement(&mut scratch, &impl_dfa, &r2, &[], Some(&real)) {
                     class = Some(name.to_string());
                     break;
                 }
